@@ -1,12 +1,14 @@
 (* C18: the untar run of the decoder as it is now ([Fixed]) stays beneath the destination.
 
-   Invariant of the UnTar loop (a.dir = rel cs):
-     - cs is a list of validated components, empty until the first node was returned;
-     - rs ++ cs is a chain of REAL directories (established by the Lstat of CreateDir,
-       kept because every write goes to rs ++ cs0 ++ [name] with cs0 a prefix of cs, a
-       place strictly below every directory of the chain),
-       or the nameless first entry was a regular file that replaced the destination rs
-       itself: then every later entry fails (ENOTDIR) before touching anything.
+   Invariant of the UnTar loop (a.dir = rel cs), by decoder state:
+     Fresh     nothing returned yet: cs = [], the PARENT chain of the destination rs consists
+               of real directories and rs itself is not a link (it may be absent, a file or
+               a directory);
+     Started   rs ++ cs is a chain of REAL directories (established by the Lstat of
+               CreateDir, kept because every write goes to rs ++ cs0 ++ [name] with cs0 a
+               prefix of cs, a place strictly below every directory of the chain);
+     LeafRoot  the nameless first entry was a file, link or device written AT rs: the
+               decoder yields no further node.
    Each LocalFS method is a Hoare triple over the place P it works on: all its writes are
    updates at P (chain), and the calls that FOLLOW a final link (chown, chmod, utimes,
    open) are only issued when P is known not to be a link. *)
@@ -159,6 +161,11 @@ Section Confine.
       intros Hk. unfold chtimes. destruct (N.eqb (n_mtime m) 0); [apply triple_ok|]. apply T_setmeta. now intros _.
     Qed.
 
+    Lemma T_lchtimes m k : triple P (has_kind k) (lchtimes dst m) (has_kind k).
+    Proof.
+      unfold lchtimes. destruct (N.eqb (n_mtime m) 0); [apply triple_ok|]. apply T_setmeta. discriminate.
+    Qed.
+
     Lemma T_mkdir m : triple P any (lift (k_mkdir dst m)) (has_kind (Some KDir)).
     Proof. apply triple_lift. intros fs fs' t Hp _ E. exact (k_mkdir_spec P P_ne P_real m fs fs' t Hp E). Qed.
 
@@ -221,7 +228,8 @@ Section Confine.
       apply (triple_andthen P _ (has_kind None)); [exact P_ne|apply T_unlink_ignoring|].
       apply (triple_andthen P _ (has_kind (Some KLink))); [exact P_ne| |].
       - eapply triple_weaken; [| |apply T_symlink]; [intros; exact I|auto].
-      - apply (triple_andthen P _ (has_kind (Some KLink))); [exact P_ne|apply T_set_perms; now right|apply triple_ok].
+      - apply (triple_andthen P _ (has_kind (Some KLink))); [exact P_ne|apply T_set_perms; now right|].
+        apply (triple_andthen P _ (has_kind (Some KLink))); [exact P_ne|apply T_lchtimes|apply triple_ok].
     Qed.
 
     Lemma T_create_device m : triple P any (create_device o root name m) (has_kind (Some KFile)).
@@ -258,40 +266,46 @@ Section Confine.
     Qed.
   End Place.
 
-  (* ---------- the destination was replaced by a regular file ---------- *)
+  (* ---------- a destination path below which nothing resolves ---------- *)
 
-  Lemma write_below_file nd base st m0 b0 :
-    real_elem base -> node_name nd = rel [base] ->
-    lookup rs (w_fs st) = Some (File m0 b0) ->
+  Lemma lift_noop st : (mkW (w_fs st) (w_touched st ++ []), @None errno) = (st, None).
+  Proof. now rewrite app_nil_r, wstate_eta. Qed.
+
+  Lemma write_node_unresolvable nd st dst :
+    dst_of root (node_name nd) = dst ->
+    (forall f, exists e, resolve_str (w_fs st) dst f = Err e) ->
     exists e, write_node o root nd st = (st, Some e).
   Proof.
-    intros Rb Hn L.
-    assert (Fq : Forall real_elem (rs ++ [base])) by (apply Forall_app; split; [exact rs_real|constructor; [exact Rb|constructor]]).
-    assert (Hq : [base] <> []) by discriminate.
-    assert (Hd : dst_of root (node_name nd) = rootstr (rs ++ [base])).
-    { rewrite Hn. unfold dst_of, root, rootstr. apply join_root_rel; [exact rs_ne|exact rs_real|constructor; [exact Rb|constructor]]. }
+    intros Hd Hres. destruct (Hres false) as [e0 R0]. destruct (Hres true) as [e1 R1].
+    assert (Hun : exists e, ignore_enoent (lift (k_unlink dst)) st = (st, Some e) \/
+                            ignore_enoent (lift (k_unlink dst)) st = (st, None)).
+    { unfold ignore_enoent, lift, k_unlink. rewrite R0. exists e0. destruct e0; auto. }
     destruct nd as [nm m|nm m data|nm m target|nm m major minor]; cbn [node_name] in Hd; cbn [write_node].
-    - unfold create_dir. rewrite Hd.
-      destruct (below_file_lstat rs [base] (w_fs st) m0 b0 rs_ne Hq Fq L) as [e ->].
-      destruct (below_file_mkdir rs [base] (w_fs st) m0 b0 rs_ne Hq Fq L meta_dir) as [e' E'].
-      exists e'. unfold andthen, lift. now rewrite E'.
-    - unfold create_file. rewrite Hd. cbn [steps].
-      destruct (below_file_remove_all rs [base] (w_fs st) m0 b0 rs_ne Hq Fq L) as [e E].
-      exists e. unfold andthen at 1. unfold lift. now rewrite E.
-    - unfold create_symlink. rewrite Hd. cbn [steps].
-      destruct (below_file_unlink rs [base] (w_fs st) m0 b0 rs_ne Hq Fq L) as (e & E & Ne).
-      exists e. unfold andthen at 1. unfold ignore_enoent, lift. rewrite E. destruct e; try reflexivity. congruence.
-    - unfold create_device. rewrite Hd. cbn [steps].
-      destruct (below_file_unlink rs [base] (w_fs st) m0 b0 rs_ne Hq Fq L) as (e & E & Ne).
-      exists e. unfold andthen at 1. unfold ignore_enoent, lift. rewrite E. destruct e; try reflexivity. congruence.
+    - unfold create_dir. rewrite Hd. unfold k_lstat. rewrite R0.
+      exists e0. unfold andthen, lift, k_mkdir. now rewrite R0.
+    - unfold create_file. rewrite Hd. cbn [steps]. unfold andthen at 1. unfold lift at 1, k_remove_all. rewrite R0.
+      assert (Hct : andthen (lift (k_create_trunc dst meta_file data))
+                      (andthen (set_perms o dst m true true) (andthen (chtimes dst m) ok_step)) st = (st, Some e1)).
+      { unfold andthen at 1. unfold lift at 1, k_create_trunc. now rewrite R1. }
+      destruct e0; try (eexists; reflexivity). cbv beta iota. rewrite app_nil_r, wstate_eta. eauto.
+    - unfold create_symlink. rewrite Hd. cbn [steps]. unfold andthen at 1.
+      destruct Hun as [e [-> | ->]]; [eauto|].
+      unfold andthen at 1. unfold lift at 1, k_symlink. destruct target; [eauto|]. rewrite R0. eauto.
+    - unfold create_device. rewrite Hd. cbn [steps]. unfold andthen at 1.
+      destruct Hun as [e [-> | ->]]; [eauto|].
+      unfold andthen at 1. destruct (mknod_refused (n_mode m)); [unfold fail_step; eauto|].
+      unfold lift at 1, k_mknod. rewrite R0. eauto.
   Qed.
 
   (* ---------- the loop invariant ---------- *)
 
-  Definition ginv (started : bool) (cs : list bytes) (fs : node) : Prop :=
-    Forall real_elem cs /\ (started = false -> cs = []) /\
-    (is_dir_at (rs ++ cs) fs \/
-     (started = true /\ cs = [] /\ exists m b, lookup rs fs = Some (File m b))).
+  Definition ginv (ds : dstate) (cs : list bytes) (fs : node) : Prop :=
+    Forall real_elem cs /\
+    match ds with
+    | Fresh => cs = [] /\ parent_ok rs fs /\ not_link_at rs fs
+    | Started => is_dir_at (rs ++ cs) fs
+    | LeafRoot => True
+    end.
 
   Lemma beneath_root_app p : beneath rs (rs ++ p) = true.
   Proof. apply is_prefix_app. Qed.
@@ -299,83 +313,124 @@ Section Confine.
   Lemma prefix_nil cs0 : prefix_of cs0 [] -> cs0 = [].
   Proof. intros [t E]. symmetry in E. now apply app_eq_nil in E. Qed.
 
-  Lemma write_node_inv started cs nd base dir' st :
-    ginv started cs (w_fs st) -> node_shape started cs nd base dir' ->
+  Lemma dst_rel cs : Forall real_elem cs -> dst_of root (rel cs) = rootstr (rs ++ cs).
+  Proof. intros F. unfold dst_of, root, rootstr. now apply join_root_rel. Qed.
+
+  (* a named entry below a chain of real directories *)
+  Lemma write_named cs0 nd base dir' st :
+    Forall real_elem cs0 -> real_elem base -> node_name nd = rel (cs0 ++ [base]) ->
+    dir' = rel (if is_dir_node nd then cs0 ++ [base] else cs0) ->
+    is_dir_at (rs ++ cs0) (w_fs st) ->
     safe st (fst (write_node o root nd st)) /\
     (snd (write_node o root nd st) = None ->
-     exists cs', dir' = rel cs' /\ ginv true cs' (w_fs (fst (write_node o root nd st)))).
+     exists cs', dir' = rel cs' /\ Forall real_elem cs' /\ is_dir_at (rs ++ cs') (w_fs (fst (write_node o root nd st)))).
   Proof.
-    intros (Fcs & Hst & Hinv) (cs0 & Hpre & F0 & Nb & Hb & Hname & Hdir).
-    destruct Hinv as [Hdirs|(Hs & -> & m0 & b0 & Lf)].
-    2:{ (* the destination is a regular file: the entry is named, below the file, and fails *)
-      apply prefix_nil in Hpre. subst cs0. destruct Nb as [->|Rb]; [specialize (Hb eq_refl); congruence|].
-      assert (Hn : node_name nd = rel [base]).
-      { rewrite Hname. cbn [app]. destruct base; [destruct Rb as [K _]; discriminate|reflexivity]. }
-      destruct (write_below_file nd base st m0 b0 Rb Hn Lf) as [e ->]. cbn [fst snd].
-      split; [apply safe_refl|discriminate]. }
-    (* rs ++ cs is a chain of real directories, so is rs ++ cs0 *)
-    assert (HD : is_dir_at (rs ++ cs0) (w_fs st)).
-    { destruct Hpre as [t ->]. rewrite app_assoc in Hdirs. exact (is_dir_at_prefix _ _ _ Hdirs). }
-    set (P := rs ++ cs0 ++ opt_comp base) in *.
+    intros F0 Rb Hname Hdir HD.
+    assert (Fn : Forall real_elem (cs0 ++ [base])) by (apply Forall_app; split; [exact F0|constructor; [exact Rb|constructor]]).
+    set (P := rs ++ cs0 ++ [base]).
     assert (P_ne : P <> []) by (unfold P; destruct rs; [congruence|discriminate]).
-    assert (P_real : Forall real_elem P).
-    { unfold P. apply Forall_app. split; [exact rs_real|now apply Forall_app_opt]. }
-    assert (Hd : dst_of root (node_name nd) = rootstr P).
-    { rewrite Hname. unfold dst_of, root, rootstr, P. apply join_root_rel; [exact rs_ne|exact rs_real|now apply Forall_app_opt]. }
+    assert (P_real : Forall real_elem P) by (unfold P; apply Forall_app; split; [exact rs_real|exact Fn]).
+    assert (Hd : dst_of root (node_name nd) = rootstr P) by (rewrite Hname; now apply dst_rel).
     assert (BP : beneath rs P = true) by apply beneath_root_app.
-    destruct Nb as [->|Rb].
-    - (* the nameless first entry: cs = [] and P = rs *)
-      specialize (Hb eq_refl). specialize (Hst Hb). subst cs. apply prefix_nil in Hpre. subst cs0.
-      cbn [opt_comp app] in *. rewrite app_nil_r in *. unfold P in *. rewrite app_nil_r in *.
-      assert (Hp : parent_ok rs (w_fs st)) by (apply is_dir_at_removelast; exact HD).
-      destruct nd as [nm m|nm m data|nm m target|nm m major minor]; cbn [node_name is_dir_node] in *; cbn [write_node].
-      + destruct (T_create_dir rs rs_ne rs_real nm Hd m st Hp I) as [C Q]. split; [exact (chain_safe rs _ _ BP C)|].
-        intros E. exists []. split; [exact Hdir|]. split; [constructor|]. split; [discriminate|].
-        left. rewrite app_nil_r. apply kind_dir_iff. exact (Q E).
-      + destruct (T_create_file rs rs_ne rs_real nm Hd m data st Hp I) as [C Q]. split; [exact (chain_safe rs _ _ BP C)|].
-        intros E. exists []. split; [exact Hdir|]. split; [constructor|]. split; [discriminate|].
-        right. split; [reflexivity|]. split; [reflexivity|]. apply kind_file_iff. exact (Q E).
-      + destruct (create_symlink_on_dir rs rs_ne rs_real nm Hd m target st Hp HD) as [e ->]. cbn [fst snd].
-        split; [apply safe_refl|discriminate].
-      + destruct (create_device_on_dir rs rs_ne rs_real nm Hd m st Hp HD) as [e ->]. cbn [fst snd].
-        split; [apply safe_refl|discriminate].
-    - (* a named entry: P = (rs ++ cs0) ++ [base], strictly below the chain *)
-      assert (Nb : name_ok base) by now right.
-      assert (Eo : opt_comp base = [base]) by (destruct base; [destruct Rb as [K _]; discriminate|reflexivity]).
-      assert (EP : P = (rs ++ cs0) ++ [base]) by (unfold P; now rewrite Eo, app_assoc).
-      assert (Hp : parent_ok P (w_fs st)) by (unfold parent_ok; rewrite EP, removelast_last; exact HD).
-      assert (Hlong : is_prefix P (rs ++ cs0) = false) by (rewrite EP; apply is_prefix_longer).
-      assert (Keep : forall st', chain P st st' -> ginv true cs0 (w_fs st')).
-      { intros st' C. split; [exact F0|]. split; [discriminate|]. left. exact (chain_keeps_dir P _ _ _ Hlong C HD). }
-      destruct nd as [nm m|nm m data|nm m target|nm m major minor]; cbn [node_name is_dir_node] in *; cbn [write_node].
-      + destruct (T_create_dir P P_ne P_real nm Hd m st Hp I) as [C Q]. split; [exact (chain_safe P _ _ BP C)|].
-        intros E. exists (cs0 ++ opt_comp base). split; [exact Hdir|]. split; [now apply Forall_app_opt|].
-        split; [discriminate|]. left. apply kind_dir_iff. exact (Q E).
-      + destruct (T_create_file P P_ne P_real nm Hd m data st Hp I) as [C Q]. split; [exact (chain_safe P _ _ BP C)|].
-        intros _. exists cs0. split; [exact Hdir|]. exact (Keep _ C).
-      + destruct (T_create_symlink P P_ne P_real nm Hd m target st Hp I) as [C Q]. split; [exact (chain_safe P _ _ BP C)|].
-        intros _. exists cs0. split; [exact Hdir|]. exact (Keep _ C).
-      + destruct (T_create_device P P_ne P_real nm Hd m st Hp I) as [C Q]. split; [exact (chain_safe P _ _ BP C)|].
-        intros _. exists cs0. split; [exact Hdir|]. exact (Keep _ C).
+    assert (EP : P = (rs ++ cs0) ++ [base]) by (unfold P; now rewrite app_assoc).
+    assert (Hp : parent_ok P (w_fs st)) by (unfold parent_ok; rewrite EP, removelast_last; exact HD).
+    assert (Hlong : is_prefix P (rs ++ cs0) = false) by (rewrite EP; apply is_prefix_longer).
+    assert (Keep : forall st', chain P st st' -> is_dir_at (rs ++ cs0) (w_fs st')).
+    { intros st' C. exact (chain_keeps_dir P _ _ _ Hlong C HD). }
+    destruct nd as [nm m|nm m data|nm m target|nm m major minor]; cbn [node_name is_dir_node] in *; cbn [write_node].
+    - destruct (T_create_dir P P_ne P_real nm Hd m st Hp I) as [C Q]. split; [exact (chain_safe P _ _ BP C)|].
+      intros E. exists (cs0 ++ [base]). split; [exact Hdir|]. split; [exact Fn|].
+      apply kind_dir_iff. exact (Q E).
+    - destruct (T_create_file P P_ne P_real nm Hd m data st Hp I) as [C Q]. split; [exact (chain_safe P _ _ BP C)|].
+      intros _. exists cs0. split; [exact Hdir|]. split; [exact F0|exact (Keep _ C)].
+    - destruct (T_create_symlink P P_ne P_real nm Hd m target st Hp I) as [C Q]. split; [exact (chain_safe P _ _ BP C)|].
+      intros _. exists cs0. split; [exact Hdir|]. split; [exact F0|exact (Keep _ C)].
+    - destruct (T_create_device P P_ne P_real nm Hd m st Hp I) as [C Q]. split; [exact (chain_safe P _ _ BP C)|].
+      intros _. exists cs0. split; [exact Hdir|]. split; [exact F0|exact (Keep _ C)].
   Qed.
 
-  Lemma untar_loop_safe : forall fuel started cs inp st,
-    ginv started cs (w_fs st) ->
-    safe st (fst (untar_loop fuel Fixed o root started (rel cs) inp st)).
+  (* the nameless first entry: written AT the destination path *)
+  Lemma write_root nd st :
+    node_name nd = rel [] -> parent_ok rs (w_fs st) ->
+    safe st (fst (write_node o root nd st)) /\
+    (snd (write_node o root nd st) = None -> is_dir_node nd = true -> is_dir_at rs (w_fs (fst (write_node o root nd st)))).
   Proof.
-    induction fuel as [|fuel IH]; intros started cs inp st G; cbn [untar_loop]; [apply safe_refl|].
-    destruct (archive_next Fixed started (rel cs) inp) as [nd base dir' rest| |] eqn:E; cbn [fst]; try apply safe_refl.
-    destruct G as (Fcs & G2). pose proof (archive_next_shape _ _ _ _ _ _ _ Fcs E) as Sh.
-    destruct (write_node_inv started cs nd base dir' st (conj Fcs G2) Sh) as [S Q].
+    intros Hname Hp.
+    assert (Hd : dst_of root (node_name nd) = rootstr rs).
+    { rewrite Hname. rewrite (dst_rel []) by constructor. now rewrite app_nil_r. }
+    assert (BP : beneath rs rs = true) by apply is_prefix_refl.
+    destruct nd as [nm m|nm m data|nm m target|nm m major minor]; cbn [node_name is_dir_node] in *; cbn [write_node].
+    - destruct (T_create_dir rs rs_ne rs_real nm Hd m st Hp I) as [C Q]. split; [exact (chain_safe rs _ _ BP C)|].
+      intros E _. apply kind_dir_iff. exact (Q E).
+    - destruct (T_create_file rs rs_ne rs_real nm Hd m data st Hp I) as [C Q]. split; [exact (chain_safe rs _ _ BP C)|discriminate].
+    - destruct (T_create_symlink rs rs_ne rs_real nm Hd m target st Hp I) as [C Q]. split; [exact (chain_safe rs _ _ BP C)|discriminate].
+    - destruct (T_create_device rs rs_ne rs_real nm Hd m st Hp I) as [C Q]. split; [exact (chain_safe rs _ _ BP C)|discriminate].
+  Qed.
+
+  Lemma opt_comp_real base : real_elem base -> opt_comp base = [base].
+  Proof. intros [K _]. destruct base; [discriminate|reflexivity]. Qed.
+
+  Lemma write_node_inv ds cs nd base dir' st :
+    ginv ds cs (w_fs st) -> node_shape ds cs nd base dir' ->
+    safe st (fst (write_node o root nd st)) /\
+    (snd (write_node o root nd st) = None ->
+     exists cs', dir' = rel cs' /\ ginv (dstate_after Fixed ds nd base) cs' (w_fs (fst (write_node o root nd st)))).
+  Proof.
+    intros (Fcs & Hinv) (Hleaf & cs0 & Hpre & F0 & Nb & Hb & Hname & Hdir).
+    destruct ds; [| |congruence].
+    - (* Fresh: cs = [] *)
+      destruct Hinv as (-> & Hp & NL). apply prefix_nil in Hpre. subst cs0. cbn [app] in *.
+      destruct Nb as [->|Rb].
+      + (* the nameless first entry *)
+        cbn [opt_comp] in *. destruct (write_root nd st Hname Hp) as [S Q]. split; [exact S|].
+        intros E. exists []. split; [destruct (is_dir_node nd); exact Hdir|].
+        split; [constructor|]. cbn [dstate_after]. destruct (is_dir_node nd) eqn:Dn; [|exact I].
+        rewrite app_nil_r. exact (Q E eq_refl).
+      + (* a named first entry: the destination has to be a directory already *)
+        rewrite (opt_comp_real base Rb) in *.
+        assert (Eds : dstate_after Fixed Fresh nd base = Started) by (destruct base; [destruct Rb as [K _]; discriminate|reflexivity]).
+        rewrite Eds.
+        assert (Fq : Forall real_elem (rs ++ [base])) by (apply Forall_app; split; [exact rs_real|constructor; [exact Rb|constructor]]).
+        assert (Hd : dst_of root (node_name nd) = rootstr (rs ++ [base])).
+        { rewrite Hname. apply (dst_rel [base]). constructor; [exact Rb|constructor]. }
+        destruct (not_link_cases rs (w_fs st) NL) as [HD|[Ln|(m0 & b0 & Lf)]].
+        * rewrite <- (app_nil_r rs) in HD.
+          destruct (write_named [] nd base dir' st (Forall_nil _) Rb Hname Hdir HD) as [S Q]. split; [exact S|].
+          intros E. destruct (Q E) as (cs' & E1 & F1 & D1). exists cs'. split; [exact E1|]. split; assumption.
+        * destruct (write_node_unresolvable nd st _ Hd) as [e ->].
+          { intros f. apply resolve_below_absent; [exact rs_ne|discriminate|exact Fq|exact Hp|exact Ln]. }
+          cbn [fst snd]. split; [apply safe_refl|discriminate].
+        * destruct (write_node_unresolvable nd st _ Hd) as [e ->].
+          { intros f. eapply resolve_below_file'; [exact rs_ne|discriminate|exact Fq|exact Lf]. }
+          cbn [fst snd]. split; [apply safe_refl|discriminate].
+    - (* Started: every entry is named, rs ++ cs0 is a chain of real directories *)
+      destruct Nb as [->|Rb]; [specialize (Hb eq_refl); discriminate|].
+      rewrite (opt_comp_real base Rb) in *.
+      assert (HD : is_dir_at (rs ++ cs0) (w_fs st)).
+      { destruct Hpre as [t ->]. rewrite app_assoc in Hinv. exact (is_dir_at_prefix _ _ _ Hinv). }
+      destruct (write_named cs0 nd base dir' st F0 Rb Hname Hdir HD) as [S Q]. split; [exact S|].
+      intros E. destruct (Q E) as (cs' & E1 & F1 & D1). exists cs'. split; [exact E1|].
+      assert (Eds : dstate_after Fixed Started nd base = Started) by (destruct base; reflexivity).
+      rewrite Eds. split; assumption.
+  Qed.
+
+  Lemma untar_loop_safe : forall fuel ds cs inp st,
+    ginv ds cs (w_fs st) ->
+    safe st (fst (untar_loop fuel Fixed o root ds (rel cs) inp st)).
+  Proof.
+    induction fuel as [|fuel IH]; intros ds cs inp st G; cbn [untar_loop]; [apply safe_refl|].
+    destruct (archive_next Fixed ds (rel cs) inp) as [nd base dir' rest| |] eqn:E; cbn [fst]; try apply safe_refl.
+    pose proof (archive_next_shape _ _ _ _ _ _ _ (proj1 G) E) as Sh.
+    destruct (write_node_inv ds cs nd base dir' st G Sh) as [S Q].
     destruct (write_node o root nd st) as [st' [e|]]; cbn [fst snd] in *; [exact S|].
     destruct (Q eq_refl) as (cs' & -> & G'). eapply safe_trans; [exact S|]. now apply IH.
   Qed.
 
-  Lemma untar_loop_fuel pol : forall fuel started dir inp st,
-    length inp < fuel -> snd (untar_loop fuel pol o root started dir inp st) <> OutOfFuel.
+  Lemma untar_loop_fuel pol : forall fuel ds dir inp st,
+    length inp < fuel -> snd (untar_loop fuel pol o root ds dir inp st) <> OutOfFuel.
   Proof.
-    induction fuel as [|fuel IH]; intros started dir inp st L; [lia|]. cbn [untar_loop].
-    destruct (archive_next pol started dir inp) as [nd base dir' rest| |] eqn:E; cbn [snd]; try discriminate.
+    induction fuel as [|fuel IH]; intros ds dir inp st L; [lia|]. cbn [untar_loop].
+    destruct (archive_next pol ds dir inp) as [nd base dir' rest| |] eqn:E; cbn [snd]; try discriminate.
     apply archive_next_rest in E. destruct (write_node o root nd st) as [st' [e|]]; cbn [snd]; [discriminate|].
     apply IH. lia.
   Qed.
@@ -384,32 +439,47 @@ End Confine.
 (* ---------- the theorems ---------- *)
 
 Theorem untar_confined : forall (o : opts) (rs : path) (elems : list elem) (fs : node),
-  rs <> [] -> Forall real_elem rs -> is_dir_at rs fs ->
+  rs <> [] -> Forall real_elem rs -> parent_ok rs fs -> not_link_at rs fs ->
   let r := untar Fixed o (rootstr rs) elems fs in
   Forall (fun p => beneath rs p = true) (w_touched (fst r)) /\
   (forall q, beneath rs q = false -> stat q (w_fs (fst r)) = stat q fs) /\
   snd r <> OutOfFuel.
 Proof.
-  intros o rs elems fs Hne Fr Hd r. unfold r, untar.
-  assert (G : ginv rs false [] (w_fs (mkW fs []))).
-  { split; [constructor|]. split; [reflexivity|]. left. cbn [w_fs]. now rewrite app_nil_r. }
-  destruct (untar_loop_safe rs Hne Fr o (S (length elems)) false [] elems (mkW fs []) G) as [Fq [t [T A]]].
+  intros o rs elems fs Hne Fr Hp NL r. unfold r, untar.
+  assert (G : ginv rs Fresh [] (w_fs (mkW fs []))).
+  { split; [constructor|]. cbn [w_fs]. auto. }
+  destruct (untar_loop_safe rs Hne Fr o (S (length elems)) Fresh [] elems (mkW fs []) G) as [Fq [t [T A]]].
   change (rel []) with dir0 in *. split; [|split].
   - cbn [w_touched app] in T. now rewrite T.
   - exact Fq.
   - apply untar_loop_fuel. lia.
 Qed.
 
+(* the usual case: the destination exists and is a real directory *)
+Corollary untar_confined_dir : forall (o : opts) (rs : path) (elems : list elem) (fs : node),
+  rs <> [] -> Forall real_elem rs -> is_dir_at rs fs ->
+  let r := untar Fixed o (rootstr rs) elems fs in
+  Forall (fun p => beneath rs p = true) (w_touched (fst r)) /\
+  (forall q, beneath rs q = false -> stat q (w_fs (fst r)) = stat q fs) /\
+  snd r <> OutOfFuel.
+Proof.
+  intros o rs elems fs Hne Fr Hd. apply untar_confined; try assumption.
+  - now apply is_dir_at_removelast.
+  - now apply is_dir_not_link.
+Qed.
+
 (* the name discipline on its own: every Name the decoder hands to the writer is a clean
    relative path of validated components below the directory the decoder is in *)
-Theorem archive_names_components : forall started cs inp nd base dir' rest,
-  Forall real_elem cs -> archive_next Fixed started (rel cs) inp = NNode nd base dir' rest ->
+Theorem archive_names_components : forall ds cs inp nd base dir' rest,
+  Forall real_elem cs -> archive_next Fixed ds (rel cs) inp = NNode nd base dir' rest ->
+  ds <> LeafRoot /\
   exists cs0, prefix_of cs0 cs /\ Forall real_elem (cs0 ++ opt_comp base) /\
-              node_name nd = rel (cs0 ++ opt_comp base) /\ (base = [] -> started = false) /\
+              node_name nd = rel (cs0 ++ opt_comp base) /\ (base = [] -> ds = Fresh) /\
               exists cs', dir' = rel cs' /\ Forall real_elem cs'.
 Proof.
-  intros started cs inp nd base dir' rest F E.
-  destruct (archive_next_shape _ _ _ _ _ _ _ F E) as (cs0 & Hp & F0 & Nb & Hb & Hn & Hd).
+  intros ds cs inp nd base dir' rest F E.
+  destruct (archive_next_shape _ _ _ _ _ _ _ F E) as (Hl & cs0 & Hp & F0 & Nb & Hb & Hn & Hd).
+  split; [exact Hl|].
   exists cs0. split; [exact Hp|]. split; [now apply Forall_app_opt|]. split; [exact Hn|]. split; [exact Hb|].
   eexists. split; [exact Hd|]. destruct (is_dir_node nd); [now apply Forall_app_opt|exact F0].
 Qed.
